@@ -58,18 +58,27 @@ def sh_quote(s: str) -> str:
     return "'" + s.replace("'", "'\\''") + "'"
 
 
-def script_text(spec: Spec, variant: int, dofile: str) -> str:
-    """Shell text for a node spec. Uses $1/$2/$3 only; cwd is the script's directory."""
+def script_text(spec: Spec, variant: int, dofile: str, gates: bool = False) -> str:
+    """Shell text for a node spec. Uses $1/$2/$3 only; cwd is the script's directory.
+    With gates=True the script reports work sections and parks at scheduling points through shim/vgate
+    (inert without a scheduler): `work-begin`/`work-end` notes delimit the time the script is doing work
+    itself (not waiting for a nested redo-ifchange)."""
     L = []
     L.append(f"# rv-generated dofile={dofile} variant={variant} tag={spec.tag}")
     L.append('echo "B $1 $REDO_RUNID" >> "$RV_TRACE"')
+    if gates:
+        L.append('vgate n "work-begin $1"')
+        L.append('vgate p "s:$1"')
     if spec.kind == "always":
         L.append("redo-always")
     deps = [d.replace("%", "$2") for d in spec.deps]
 
     def ifchange(names):
         q = " ".join('"%s"' % n for n in names)
-        return (f'redo-ifchange {q} || {{ rc=$?; echo "R $1 $rc" >> "$RV_TRACE"; exit $rc; }}')
+        core = (f'redo-ifchange {q} || {{ rc=$?; echo "R $1 $rc" >> "$RV_TRACE"; exit $rc; }}')
+        if gates:
+            return 'vgate n "work-end $1"; ' + core + '; vgate n "work-begin $1"; vgate p "r:$1"'
+        return core
 
     L.append('c=""')
     if deps:
@@ -107,7 +116,8 @@ def script_text(spec: Spec, variant: int, dofile: str) -> str:
     if spec.fail:
         fl = spec.fail.replace("%", "$2")
         L.append(ifchange([fl]))
-        L.append(f'if [ "$(cat "{fl}")" = 1 ]; then echo "F $1" >> "$RV_TRACE"; exit 7; fi')
+        we = 'vgate n "work-end $1"; ' if gates else ""
+        L.append(f'if [ "$(cat "{fl}")" = 1 ]; then echo "F $1" >> "$RV_TRACE"; {we}exit 7; fi')
     if spec.proj:
         L.append("c=$(printf %s \"$c\" | tr 1 0)")
     if spec.out == "file":
@@ -121,6 +131,9 @@ def script_text(spec: Spec, variant: int, dofile: str) -> str:
             L.append('printf "%s(%s)\\n" "$1" "$c" | redo-stamp')
         else:
             L.append('printf "%s(%s)\\n" "$1" "$c"')
+    if gates:
+        L.append('vgate p "e:$1"')
+        L.append('vgate n "work-end $1"')
     L.append('echo "E $1" >> "$RV_TRACE"')
     return "\n".join(L) + "\n"
 
